@@ -163,14 +163,14 @@ Record tov := { t_op : str; t_lhs : str; t_rhs : str; t_name : option str; t_val
                 t_unit : option str; t_error : bool }.
 
 Definition parse_rhs (rhs : str) : option str * option str :=     (* tag_value, tag_unit *)
-  let with_unit :=
-    find (fun p => let r := lstrip (snd p) in
-                   match r with [] => false | _ => all_p is_unit_char r end) (float_cands rhs) in
-  match with_unit with
-  | Some (f, r) => (Some f, Some (lstrip r))
+  (* a right-hand side that is a number as a whole has no unit (its exponent is not read as one);
+     otherwise float + unit; otherwise a string value *)
+  match find (fun p => all_p is_space (snd p)) (float_cands rhs) with
+  | Some (f, _) => (Some f, None)
   | None =>
-      match find (fun p => all_p is_space (snd p)) (float_cands rhs) with
-      | Some (f, _) => (Some f, None)
+      match find (fun p => let r := lstrip (snd p) in
+                           match r with [] => false | _ => all_p is_unit_char r end) (float_cands rhs) with
+      | Some (f, r) => (Some f, Some (lstrip r))
       | None => (Some rhs, None)
       end
   end.
